@@ -37,6 +37,7 @@ func policyTape(f func(bound uint32, i int) uint32) *tape.Tape {
 		w, _ := cal.Rep(bound, o)
 		return w, nil
 	}))
+	t.CloseAfterWord = true
 	return t
 }
 
